@@ -104,6 +104,7 @@ type cliWorld struct {
 	withNote  bool
 	onStop    []string
 	onStopSeq []int
+	onStopErr []error
 	cancelLog []string
 	cancelCount map[string]int
 
@@ -209,6 +210,7 @@ func (w *cliWorld) options() *jrpc2.ClientOptions {
 		}
 		o.OnStop = func(c *jrpc2.Client, err error) {
 			w.onStop = append(w.onStop, errStr(err))
+			w.onStopErr = append(w.onStopErr, err)
 			w.onStopSeq = append(w.onStopSeq, w.seq())
 			w.r.Ev("c.onstop", "", 0, 0, errStr(err))
 		}
